@@ -77,6 +77,11 @@ def judge(chk, sc, o):
     if o.get('harness_error'):
         return 'harness'
     case = {'scenario': sc}
+    if o.get('roles_missing') and sc['ops'][sc.get('judge_op', 0)]['op'] == 'apply_batch':
+        # what the victim had taken / acknowledged / announced is read from the trace by the roles of the comms objects; without
+        # them a crash point cannot be told from the documented windows: a broken tie, not a verdict
+        chk.mismatch('crash-point classification needs the roles of the WorkerComms objects', {'roles_missing': o['roles_missing']}, 'trace without roles', 'n/a')
+        return 'unclassifiable'
     if o.get('stuck'):
         ph = (o.get('injected') or {}).get('victim_phase')
         if sc['ops'][0]['op'] == 'apply_batch' and ph in ('apply_pill_taken', 'apply_task_taken'):
